@@ -2,7 +2,7 @@ from common import KERNEL, CORR
 
 PROP = dict(
     level="proof",
-    generators=["C18"],
+    generators=["C18", "C17Pack"],   # the message packer ops too (strings of any length encoded by lal's own command writers)
     trusted_base=[
         KERNEL, CORR,
         "Spec/Amf0Spec.lean is the reading of Adobe 'AMF 0' (2007) §2.2-2.14 used as the conforming decoder (markers 00 01 02 03 05 06 08 09 0A 0C; "
